@@ -12,7 +12,13 @@
           (CAP = the harness' bound on the number of calls was hit: a hang).
    DIFF: the extracted model (run on the same bytes under the same chunk list) does
    not produce the same outcome list, or the Coq printer does not print the file
-   the harness printed.  Lines of other groups (fmt=transfac ...) are answered OK. *)
+   the harness printed.  Lines of other groups (fmt=transfac ...) are answered OK.
+   Round 3: the whole outcome list (the calls after the first error / END included) is compared with
+   the polling models IoPoll.*_polls_e; `ev:` chunk specs are fault scripts (IoErr.v event streams);
+   `layout=g` cases are printed and judged through IoPrintG (per-count blanks); a bundled file is
+   recognised (recognise_jaspar16 / recognise_uniprobe, untrusted) as an instance of the extracted
+   printers -- re-printed byte for byte, accepted by the extracted wf predicates -- and then judged by
+   check_c14 against the records written in it; a file that is not recognised is a DIFF. *)
 open Io_model
 
 (* deep recursion of extracted list functions on large files: re-exec with a big stack *)
@@ -407,14 +413,15 @@ let run_case (type c) ~(fmt : string) ~(mode : string) ~(get : string -> string 
      instance (e.g. last line without final newline) falls back to the checks below and says so *)
   (if mode = "c14" && fmt = "uniprobe" && recs = None && get "file" <> None then begin
      match (try `Rec (recognise_uniprobe data) with No_parse why -> `Bad why) with
-     | `Bad _ -> ()
+     | `Bad why -> set ("DIFF bundled-file-not-recognised-as-print_uniprobe: " ^ why)
      | `Rec (pre, rs, suf) ->
-         if string_of_bytes (print_file print_uniprobe pre rs suf) = data && rs <> [] && wf_extra rs pre suf && wf_suffix suf then
-           bundled_expected := Some (List.map (fun (_, r) -> record_of alphabet zero value r) rs)
+         if string_of_bytes (print_file print_uniprobe pre rs suf) <> data then
+           set "DIFF bundled-file-recogniser-does-not-reprint-the-file (e.g. last line without final newline: outside reader_roundtrip_uniprobe)"
+         else if not (rs <> [] && wf_extra rs pre suf && wf_suffix suf) then
+           set "DIFF bundled-file-not-wf-for-reader_roundtrip_uniprobe"
+         else bundled_expected := Some (List.map (fun (_, r) -> record_of alphabet zero value r) rs)
    end);
-  (if mode = "c14" && recs = None && grecs = None && get "file" <> None && !bundled_expected = None && !verdict = "OK" then
-     prerr_endline ("io driver: bundled file outside the round-trip theorems (not an instance of the printers): "
-                    ^ Option.value (get "file") ~default:"?"));
+
   List.iteri (fun gi (g, spec) ->
       if !verdict = "OK" || (String.length !verdict > 4 && String.sub !verdict 0 4 = "DIFF") then begin
         let obs = parse_group g in
@@ -441,7 +448,8 @@ let run_case (type c) ~(fmt : string) ~(mode : string) ~(get : string -> string 
                            | None -> ())
                    | None -> ())
               | None ->
-                  (* bundled file: records then END, same under every chunking, expected count *)
+                  (* a bundled file that was NOT recognised as an instance of the printers (a DIFF was set above): still
+                     records then END, same under every chunking, expected count -- never the only verdict *)
                   if not (check_c15 stop) || (match List.rev stop with Ok None :: _ -> false | _ -> true) then
                     set (Printf.sprintf "PROPFAIL chunking=%s bundled-file-not-read-to-END" spec)
                   else begin
